@@ -14,7 +14,8 @@ import proto
 import vcommon as vc
 from hyprun import CaseResult
 
-NAMES = ["m0", "m1", "m2", "m3", "m4", "m5"]
+# the first three names are prefixes of each other with one sorting in between (module lists are kept by name)
+NAMES = ["m0", "m0a", "m0x", "m1", "m2", "m3", "m4", "m5"]
 
 
 def V(sig, msg):
@@ -266,7 +267,7 @@ def graph_s(draw, pid, tier, opts=None):
                 del graph[a]
         case["anti"] = anti
     if k in (0, 1) and draw(st.booleans()):
-        case["backend"] = draw(st.lists(st.sampled_from(names), min_size=1, max_size=2, unique=True))
+        case["backend"] = draw(st.lists(st.sampled_from(names), min_size=1, max_size=3))     # a name listed twice calls module_is_backend() twice
     if want_call:
         edges = [(a, b) for a in graph for b in graph[a]]      # dependencies declared by the dependent itself
         if edges:
@@ -352,6 +353,8 @@ def enum_cases(tier):
             for be in itertools.combinations(names, r):
                 for lst in ([names[0]], [names[2]], names, names[::-1]):
                     yield {"graph": graph, "backend": list(be), "list": list(lst), "missing": None}
+                    if r == 1:
+                        yield {"graph": graph, "backend": list(be) * 2, "list": list(lst), "missing": None}    # module_is_backend() called twice
     if tier == "thorough":
         names = NAMES[:4]
         pairs = [(a, b) for a in names for b in names if a != b]
